@@ -48,6 +48,9 @@ def val(v):
         return bool(v[1])
     if k == 'sc':
         return Scale(list(v[1:]))
+    if k == 'sct':
+        from sc3.seq.scale import Tuning
+        return Scale(list(v[2:]), Tuning.et(int(v[1])))
     raise ValueError(v)
 
 
